@@ -10,6 +10,6 @@ CONSTANTS
   MaxBal = 1
   MaxVals = 0
 INVARIANTS TypeC16 GenerateIsBatch AccSheet WinRateSane ProfitFactorSane OrderFreeC16
-PROPERTIES Keyed Additive LatestBalance
+PROPERTIES Keyed Additive LatestBalance PersistIsStutter
 CHECK_DEADLOCK FALSE
 VIEW View
